@@ -230,6 +230,30 @@ func c07Scens(tier string) []msScen {
 			}
 		}
 	}
+	// a client that stops taking a response body while the writer carries on and closes: Close still returns, the other
+	// requests are released, and the stalled download completes once the client takes the rest
+	type stalled struct {
+		cfg   muxCfg
+		warms []int
+		reqs  [][][]string
+	}
+	for _, sb := range []stalled{
+		{cfgLL, []int{6, 9}, [][][]string{{{"PH!stall"}}, {{"PH!stall"}, {"BR"}}, {{"PART!stall"}, {"PH"}}, {{"SEG!stall"}, {"PL"}}, {{"PL!stall"}, {"BR"}}}},
+		{cfgLLDisk, []int{9}, [][][]string{{{"PH!stall"}}, {{"PART!stall"}, {"BR"}}, {{"SEG!stall"}}}},
+		{cfgFMP4Disk, []int{10}, [][][]string{{{"SEG!stall"}}, {{"INIT!stall"}, {"PL"}}}},
+		{cfgTSDisk, []int{10}, [][][]string{{{"SEG!stall"}, {"PL"}}}},
+	} {
+		for _, warm := range sb.warms {
+			for _, writes := range []int{1, 3} {
+				if tier != "thorough" && writes == 3 && warm != sb.warms[0] {
+					continue
+				}
+				for _, reqs := range sb.reqs {
+					out = append(out, msScen{Prop: "C07", Cfg: sb.cfg, Warm: warm, Writes: writes, Close: true, Reqs: reqs, Bound: bound, Shards: 1})
+				}
+			}
+		}
+	}
 	return out
 }
 
